@@ -122,3 +122,33 @@ func TestC09BufferReuse(t *testing.T) {
 		})
 	})
 }
+
+const c09cRule = "Failover over constructed xxhash64-colliding keys: the scenario's key alphabet is a pair of distinct 64-byte keys with the same 64-bit hash plus one ordinary key; C02-style generated schedules with concurrent Gets on the colliding keys; " +
+	"oracle: C02 provenance (a Get never returns a value or error produced for the other key) + C04 quiescence (values sit under their own key, every key can be rebuilt); a collision may cost a miss/rebuild, never a leak; non-trivial = Gets on both colliding keys were in flight in one case"
+
+// TestC09FailoverCollision: per-key build locks and results are not mixed up between colliding keys.
+func TestC09FailoverCollision(t *testing.T) {
+	runCheck(t, "C09", "C09FailoverCollision", c09cRule, func(c *Case) {
+		base := bytes.Repeat([]byte("collide!"), 8)
+		k2 := collide(base, c.Int("lane", 0, 3), uint64(c.Int("a0", 1, 1<<30))*0x9E3779B97F4A7C15)
+		other := bytes.Repeat([]byte("ordinary"), 8)
+		keys := [][]byte{base, k2, other}
+
+		propFailoverSched(c, scenOpts{
+			keys: keys, maxKeys: 3, minGets: 2, maxGets: 6, postActions: true, failPct: 30, errKinds: true, prefail: true,
+		}, func(w *world, sc *scenario, complete bool) {
+			w.checkProvenance()
+			w.checkQuiescenceLossy(sc, complete)
+
+			used := map[string]bool{}
+			for _, g := range sc.gets {
+				used[string(g.key)] = true
+			}
+
+			if used[string(base)] && used[string(k2)] {
+				c.Class("both-colliding-keys-used")
+				c.NonTrivial()
+			}
+		})
+	})
+}
